@@ -151,3 +151,39 @@ func Concrete(v int) int { return v }
 
 // ConcreteStr tells the engine to fork over the content of s (no-op natively).
 func ConcreteStr(s string) string { return s }
+
+// SlotText is the text of one token slot: the lexeme, padding, newline.
+func SlotText(lex string, width int) string {
+	s := lex
+	for len(s) < width-1 {
+		s += " "
+	}
+	return s + "\n"
+}
+
+// SlotWidth is the slot width for a vocabulary.
+func SlotWidth(vocab []string) int {
+	w := 0
+	for _, l := range vocab {
+		if len(l) > w {
+			w = len(l)
+		}
+	}
+	return w + 2
+}
+
+// Tokens returns a source made of k token slots, each holding an arbitrary
+// lexeme of vocab. In the engine, parser.Scan on exactly this string is
+// summarised from tables derived from the real lexer; natively it is plain text.
+func Tokens(k int, vocab []string) string {
+	w := SlotWidth(vocab)
+	s := ""
+	for i := 0; i < k; i++ {
+		j := int(next("tok", 1)[0])
+		if j < 0 || j >= len(vocab) {
+			panic(AssumeFalse{})
+		}
+		s += SlotText(vocab[j], w)
+	}
+	return s
+}
